@@ -178,7 +178,7 @@ def check(prog, rep, tier):
             elif isinstance(n, ast.Call) and isinstance(n.func, ast.Attribute) and n.func.attr == 'get' and \
                     src_of(n.func.value) in ('self.peer_files', 'self.msg_sequence') and n.args:
                 key_expr = n.args[0]
-            if key_expr is not None and src_of(key_expr) != '%s.lower()' % peerp:
+            if key_expr is not None and common.unalias(fn.node, key_expr) != '%s.lower()' % peerp:
                 bad_keys.append((n.lineno, src_of(key_expr)))
         key = 'peer-key:%s' % fn.name
         if bad_keys:
